@@ -90,9 +90,9 @@ class ProtocolHandler(abc.ABC):
         }.get(name, 0)
 
     def stop(self) -> None:
-        """The NCP is about to be reset: fail the commands that were not sent yet."""
+        """The NCP is being reset or the port closed: fail the commands not sent yet."""
         self._stopped = True
-        self._send_semaphore.cancel_waiting(EzspError("EZSP is being reset"))
+        self._send_semaphore.cancel_waiting(EzspError("EZSP is stopped"))
 
     async def command(self, name, *args, **kwargs) -> Any:
         """Serialize command and send it."""
@@ -113,7 +113,7 @@ class ProtocolHandler(abc.ABC):
         async with self._send_semaphore(priority=self._get_command_priority(name)):
             if self._stopped:
                 # Our turn came just as the reset started
-                raise EzspError("EZSP is being reset")
+                raise EzspError("EZSP is stopped")
 
             if delayed:
                 LOGGER.debug(
